@@ -45,7 +45,7 @@ func r13_1(c *Ctx, r *Report) {
 
 func r13_2(c *Ctx, r *Report) {
 	const rule = "R13.2"
-	r.rule(rule, "Stem anchors and pentad tables. 6 and 4 are the positions of 庚 and 戊 in the stem cycle of LunarUtil.GAN (the anchors R13.5 evaluates against); pentads last 5 days, 3 pentads per term over the 72 = 3*24 phenological names, the third absorbing the remainder.")
+	r.rule(rule, "Stem anchors and pentad tables. 6 and 4 are the positions of 庚 and 戊 in the stem cycle of LunarUtil.GAN (the anchors R13.5 evaluates against); the pentad tables have 3 and 72 = 3*24 entries (how they are indexed is R13.5).")
 	gan := c.tabStrs(r, rule, "LunarUtil", "GAN")
 	pos := func(s string) int64 {
 		for i, g := range gan {
@@ -60,17 +60,7 @@ func r13_2(c *Ctx, r *Report) {
 	wu := c.tabStrs(r, rule, "LunarUtil", "WU_HOU")
 	jq := c.tabStrs(r, rule, "calendar", "JIE_QI")
 	r.check(len(hou) == 3 && len(wu) == 3*len(jq) && len(jq) == 24, rule, "pentad tables: 3 names, 72 = 3*24 phenological names", c.pos(c.tables.pos("LunarUtil", "WU_HOU")), fmt.Sprintf("len(HOU)=%d len(WU_HOU)=%d len(JIE_QI)=%d", len(hou), len(wu), len(jq)))
-	for _, name := range []string{"calendar.(*Lunar).GetWuHou"} {
-		if fn := c.Fn(r, rule, name); fn != nil {
-			u := intConstUses(fn)
-			r.check(countConst(u, token.QUO, 5) == 1, rule, name+" divides the day offset by 5", c.fnPos(fn), fmt.Sprintf("constants %v", u))
-		}
-	}
-	if fn := c.Fn(r, rule, "calendar.(*Lunar).GetWuHou"); fn != nil {
-		u := intConstUses(fn)
-		r.check(countConst(u, token.MUL, 3) == 1 && countConst(u, token.GTR, 2) == 1, rule, "calendar.(*Lunar).GetWuHou indexes term*3 + pentad with the third pentad absorbing the remainder", c.fnPos(fn), fmt.Sprintf("constants %v", u))
-	}
-	r.floor(rule, 4)
+	r.floor(rule, 2)
 }
 
 // callsOn lists calls of the named *Solar method in fn as "recv.method(arg)" using variable comments.
